@@ -22,7 +22,7 @@ pub fn property() -> Property {
     Property {
         id: "C09",
         level: "fault_enumeration",
-        rule: "(injected) the search is run synchronously (hook) and the regular poll is forced at negamax node n, in both forms the code has (a `stop` waiting in the command channel = flag set and node continues; move time expired = flag set and immediate return): for a root P with `go depth 2..4` whose clean run visits N nodes, EVERY n in 1..N when N <= 1500, otherwise all iteration boundaries +-2 plus a stratified sample of 500 points; optionally two interrupted searches in a row. After each: exactly one BestMove; if an iteration had completed it is the first move of the last reported pv and legal in P; the search's board (read back as FEN) equals P exactly; a following `go depth 1` WITHOUT a position command answers a move legal in P with the depth-1 score of a fresh engine given P. (threaded) real engine threads: go infinite / movetime / depth on busy middlegames, stop (or quit) after 0..300 ms, board read back through the engine (hook message) and the same follow-up check. Non-trivial = distinct (P, n, mode) with the abort landing below the root (something was made and not yet unmade)",
+        rule: "(injected) the search is run synchronously (hook) and the regular poll is forced at negamax node n, in both forms the code has (a `stop` waiting in the command channel = flag set and node continues; move time expired = flag set and immediate return): for a root P with `go depth 2..4` whose clean run visits N nodes, EVERY n in 1..N when N <= 1500 (and the tree incl. quiescence is small enough for a work budget of 24 million nodes per root), otherwise all iteration boundaries +-2 plus a stratified sample of 12..500 points; optionally two interrupted searches in a row. After each: exactly one BestMove; if an iteration had completed it is the first move of the last reported pv and legal in P; the search's board (read back as FEN) equals P exactly; a following `go depth 1` WITHOUT a position command answers a move legal in P with the depth-1 score of a fresh engine given P. (threaded) real engine threads: go infinite / movetime / depth on busy middlegames, stop (or quit) after 0..300 ms, board read back through the engine (hook message) and the same follow-up check. Non-trivial = distinct (P, n, mode) with the abort landing below the root (something was made and not yet unmade)",
         assumptions: &["the hook generalises the polling point from 'every 100,000th node' to 'any node': a superset of the real interruption points on the same code path", "points inside the first iteration cannot be polled in reality (< 100,000 nodes): there only the position-untouched part is asserted, a null bestmove is accepted"],
         parts: vec![
             Part {
@@ -129,6 +129,8 @@ struct Baseline {
     depth1_score: Option<String>,
     nodes_depth1: u64,
     nodes_total: u64,
+    /// negamax + quiescence nodes of the clean run (what one interrupted run can cost)
+    work_total: u64,
     boundaries: Vec<u64>,
     /// result of the clean run to depth k (index k-1): best move and score text
     clean: Vec<(Option<String>, Option<String>)>,
@@ -145,14 +147,16 @@ fn baseline(fen: &str, history: &[String], depth: u32) -> Result<Baseline, Strin
     let mut boundaries = Vec::new();
     let mut clean = Vec::new();
     let mut nodes_total = 0;
+    let mut work_total = 0;
     for d in 1..=depth {
         let mut s = Sync::new(fen, history)?;
         let a = s.go(d as u64, None);
         nodes_total = s.vs.nodes_of_last_search();
+        work_total = a.infos.iter().filter_map(|i| i.nodes).max().unwrap_or(nodes_total);
         boundaries.push(nodes_total);
         clean.push((a.best.first().cloned().flatten().map(|m| m.to_string()), last_score(&a)));
     }
-    Ok(Baseline { root, root_fen, legal, depth1_score, nodes_depth1, nodes_total, boundaries, clean })
+    Ok(Baseline { root, root_fen, legal, depth1_score, nodes_depth1, nodes_total, work_total, boundaries, clean })
 }
 
 /// one search interrupted at `node` (after the interrupted searches in `before`), then all checks
@@ -249,7 +253,10 @@ pub fn check_injected(c: &InjCase, ctx: &mut Ctx) -> Result<(), String> {
     }
     let n = base.nodes_total;
     let mut points: Vec<u64> = Vec::new();
-    if n <= 1500 {
+    // work bound per root: about 40 million nodes (quiescence included) over all interrupted runs
+    let pattern_len: u64 = match c.pattern { 2 | 5 => 2, 3 => 3, _ => 1 };
+    let affordable = (24_000_000 / base.work_total.max(1) / pattern_len).max(12);
+    if n <= 1500 && n <= affordable {
         points.extend(1..=n);
     } else {
         for &b in &base.boundaries {
@@ -260,7 +267,9 @@ pub fn check_injected(c: &InjCase, ctx: &mut Ctx) -> Result<(), String> {
                 }
             }
         }
-        let step = (n / 500).max(1);
+        // keep the work per root bounded: an interrupted run costs up to n nodes (times the pattern length)
+        let budget_points = affordable.clamp(12, 500);
+        let step = (n / budget_points).max(1);
         let mut x = 1 + (n % step);
         while x <= n {
             points.push(x);
@@ -296,7 +305,7 @@ pub fn check_injected(c: &InjCase, ctx: &mut Ctx) -> Result<(), String> {
             }
         }
     }
-    ctx.class(if n <= 1500 { "all_points_enumerated" } else { "points_sampled" });
+    ctx.class(if n <= 1500 && n <= affordable { "all_points_enumerated" } else { "points_sampled" });
     if !before_empty(c.pattern) {
         ctx.class("consecutive_interrupted_searches");
     }
